@@ -46,6 +46,8 @@ for d in sorted(glob.glob(os.path.join(SEEDED, "mut_*"))):
            "DETECTED (no-failing-input-found)" if w.get("detected") else "MISSED")
     also = m.get("also_detected_by", "")
     first, ch = FIRST.get(name, ("", ""))
+    if also and now == "MISSED":
+        now = "DETECTED by another property's check; this property's own check: missed."
     rows.append((name, m.get("property", m.get("breaks_property", "?")), (m.get("summary") or "").replace("|", "/").replace("\n", " ")[:230],
                  first or ("detected" if w.get("detected") else "-"), now + (" " + also if also else ""), ch, w.get("repo_head", ""), w.get("check_wall_s", "")))
 out = ["# Seeded changes (mutation self-test)", "",
